@@ -18,7 +18,7 @@ import subprocess
 import tempfile
 
 from sim import lianrun, projgen
-from sim.core import PYTHON, REPO_DIR, VERIF_DIR, canon_json, digest_hex, h64, pinned_env, scratch_root
+from sim.core import PYTHON, REPO_DIR, REPO_SRC, VERIF_DIR, canon_json, digest_hex, h64, pinned_env, scratch_root
 
 PID = "C14"
 RULE = ("seeded trials: a generated Python project (1..4 modules; named, default and packed arguments, classes, dict/list literals, "
@@ -36,7 +36,7 @@ ASSUMPTIONS = [
     "files are compared as raw bytes when the workspace path is identical, and as decoded feather rows / text with the workspace path masked otherwise",
     "a front-end crash or error exit is an outcome and is compared like any other",
 ]
-PROBES = ["nonempty_tables", "hashseed_varied", "dirent_varied", "heap_varied", "clock_varied", "env_varied", "ws_sibling", "ws_otherfs", "ws_relative", "ws_symlink",
+PROBES = ["nonempty_tables", "hashseed_varied", "dirent_varied", "heap_varied", "clock_varied", "env_varied", "env_ascii_locale", "install_via_symlink", "ws_sibling", "ws_otherfs", "ws_relative", "ws_symlink",
           "cwd_varied", "pyopt_varied", "ws_symlink_inner", "ws_named_externs", "ws_named_src", "ws_named_default", "ws_named_glob", "ws_named_braces", "ws_symlink_sub", "history_other_settings",
           "history_same_project", "history_other_project", "history_crashed_run", "multi_file_project", "corpus_project",
           "generated_project", "sub_run", "sub_semantic", "taint_phase_ran", "baseline_completed", "baseline_ended_early", "not_quiet", "taint_report_written"]
@@ -129,16 +129,18 @@ ENV_SETS = [{"TZ": "Asia/Tokyo"}, {"TZ": "America/St_Johns", "COLUMNS": "40", "L
             {"_umask": "077"}, {"_umask": "000", "TERM": "xterm-256color", "FORCE_COLOR": "1"}, {"_close_stdin": "1"},
             {"PYTHONUNBUFFERED": "1", "PYTHONFAULTHANDLER": "1"}, {"USER": "someone", "LOGNAME": "someone", "SHELL": "/bin/false"}]
 HIST_CYCLE = [{"proj": "B"}, {"proj": "A"}, {"proj": "B"}, {"proj": "B", "crash_at": 15}, {"proj": "B", "settings": "alt"}]
-DIM_CYCLE = ["ws", "hashseed", "history", "ws", "dirent", "pyopt", "ws", "heap", "cwd", "clock", "env"]
+DIM_CYCLE = ["ws", "hashseed", "history", "ws", "dirent", "pyopt", "ws", "heap", "cwd", "clock", "env", "install"]
 
 
 def _gen_variant(rng, baseline, forced_dim=None, forced_ws=None):
     v = dict(baseline)
-    dims = rng.sample(["hashseed", "dirent", "heap", "ws", "history", "cwd", "pyopt", "clock", "env"], rng.choice([1, 1, 1, 2, 3]))
+    dims = rng.sample(["hashseed", "dirent", "heap", "ws", "history", "cwd", "pyopt", "clock", "env", "install"], rng.choice([1, 1, 1, 2, 3]))
     if forced_dim and forced_dim not in dims:
         dims.append(forced_dim)         # stratification: every dimension (and every workspace location) turns up regularly
     if "pyopt" in dims:
         v["pyopt"] = rng.choice([1, 1, 2])      # the analysing interpreter started with -O / -OO
+    if "install" in dims:
+        v["install"] = "symlink"          # lian itself imported through a symlinked directory (/opt/lian -> /opt/lian-1.4)
     if "env" in dims:
         # the rest of the process environment: time zone, terminal geometry and colours, locale spellings that still mean
         # UTF-8, the encoding of the console streams, the umask, a closed standard input
@@ -208,8 +210,9 @@ def generate(rng, k):
         lang_op["quiet"] = False          # the workspace on another file system than the temporary directory: all report files
         lang_op["sub"] = "run"
     ops.append(lang_op)
-    baseline = {"op": "variant", "hashseed": 0, "dirent": "natural", "heap_pad": 0, "ws": "same", "history": [], "clock": "natural", "env": {}}
+    baseline = {"op": "variant", "hashseed": 0, "dirent": "natural", "heap_pad": 0, "ws": "same", "history": [], "clock": "natural", "env": {}, "install": "plain"}
     ops.append(baseline)
+    all_ascii = all(op["content"].isascii() and op["path"].isascii() for op in ops if op["op"] in ("file", "otherfile"))
     for j in range(k["n_variants"] - 1):
         if j == 0:
             fd = DIM_CYCLE[ri % len(DIM_CYCLE)]
@@ -222,6 +225,10 @@ def generate(rng, k):
             ops.append(v_)
         else:
             ops.append(_gen_variant(rng, baseline))
+        if all_ascii and "env" in ops[-1] and ops[-1]["env"] and rng.random() < 0.5:
+            # a locale whose default text encoding is ASCII - only for projects that are pure ASCII themselves, because lian
+            # decodes sources with the locale's encoding (see DESIGN, limits); the console keeps UTF-8
+            ops[-1]["env"] = {"LC_ALL": "POSIX", "LANG": "POSIX", "PYTHONUTF8": "0", "PYTHONCOERCECLOCALE": "0", "PYTHONIOENCODING": "utf-8"}
     return ops
 
 
@@ -252,6 +259,12 @@ def _run_child(B, n, spec, hashseed, pyopt=0):
         env["PYTHONOPTIMIZE"] = str(pyopt)
     env["HOME"] = os.path.join(B, "home")
     env["MPLCONFIGDIR"] = os.path.join(B, "home", "mpl")
+    if spec.get("install") == "symlink":
+        from sim.core import REPO_DIR
+        link = os.path.join(B, "opt_lian")
+        if not os.path.lexists(link):
+            os.symlink(REPO_DIR, link)
+        env["PYTHONPATH"] = os.path.join(link, os.path.basename(REPO_SRC.rstrip("/"))) + os.pathsep + VERIF_DIR
     for name_, val_ in (spec.get("env") or {}).items():
         if name_.startswith("_"):
             continue                      # applied inside the child (umask, closed stdin)
@@ -387,7 +400,7 @@ def execute(trace):
             def spec_for(proj, crash_at=None):
                 argv = lianrun.build_argv({"sub": k["sub"], "lang": lang, "force": True, "workspace": w_arg, "quiet": quiet,
                                            "inputs": [proj], "flags": k["flags"], "stock_settings": k.get("stock_settings")}, run_settings)
-                return {"argv": argv, "cwd": cwd, "dirent": v.get("dirent", "natural"), "heap_pad": v.get("heap_pad", 0), "clock": v.get("clock", "natural"), "env": v.get("env") or {},
+                return {"argv": argv, "cwd": cwd, "dirent": v.get("dirent", "natural"), "heap_pad": v.get("heap_pad", 0), "clock": v.get("clock", "natural"), "env": v.get("env") or {}, "install": v.get("install") or "plain",
                         "settings": run_settings, "stock_settings": k.get("stock_settings", False), "ws": W, "mask": masks,
                         "crash_at": crash_at}
             # ---- machine history: earlier separate processes into the same workspace path
@@ -443,6 +456,11 @@ def execute(trace):
             if (v.get("env") or {}) != (base_v.get("env") or {}):
                 dims.append("env")
                 hit("env_varied")
+                if (v.get("env") or {}).get("PYTHONUTF8") == "0":
+                    hit("env_ascii_locale")
+            if (v.get("install") or "plain") != (base_v.get("install") or "plain"):
+                dims.append("install")
+                hit("install_via_symlink")
             if wsk != base_v.get("ws", "same"):
                 dims.append("ws")
                 hit("ws_" + wsk)
@@ -518,7 +536,7 @@ def simplify(trace):
         base = ops[vidx[0]]
         for i in vidx[1:]:
             v = ops[i]
-            for dim, key in (("history", "history"), ("ws", "ws"), ("cwd", "cwd"), ("pyopt", "pyopt"), ("heap", "heap_pad"), ("clock", "clock"), ("env", "env"), ("dirent", "dirent"), ("hashseed", "hashseed")):
+            for dim, key in (("history", "history"), ("ws", "ws"), ("cwd", "cwd"), ("pyopt", "pyopt"), ("heap", "heap_pad"), ("clock", "clock"), ("env", "env"), ("install", "install"), ("dirent", "dirent"), ("hashseed", "hashseed")):
                 if v.get(key) != base.get(key):
                     yield dict(trace, ops=ops[:i] + [dict(v, **{key: base.get(key)})] + ops[i + 1:])
             if len(v.get("history", [])) > 1:
